@@ -550,6 +550,7 @@ func joinStr(s []string) string { return strings.Join(s, ", ") }
 // considered: the true edge carries normCond(cond,true), the false edge
 // normCond(cond,false)).
 func HeldEdges(fn *ssa.Function, re string) []Edge {
+	setIPContext(fn)
 	rx := regexp.MustCompile(re)
 	var out []Edge
 	for _, b := range blocksIP(fn) {
